@@ -139,9 +139,8 @@ func checkC03(rt *caseRT, st *c03Stats) []vio {
 			if later.Rec == nil || earlier.Rec == nil || later.Rec.computedT == 0 || earlier.Rec.computedT == 0 {
 				return false
 			}
-			if later.Rec.srcV == earlier.Rec.srcV {
-				return false
-			}
+			// (one goroutine enqueues a pack before it computes its next one, so a reversal always involves two
+			// goroutines: two streams, or a stream and the handler goroutine that processes its forwarded packs)
 			return later.Rec.computedT < earlier.Rec.computedT
 		}
 		for _, v := range crossPack(q, deq, explained) {
